@@ -1080,6 +1080,7 @@ impl<BE: Backend> GLWEShiftDefault<BE> for Module<BE> where
         + VecZnxLshTmpBytes
         + VecZnxLshAssign<BE>
         + VecZnxLsh<BE>
+        + VecZnxZero
 {
 }
 
@@ -1093,7 +1094,8 @@ where
         + VecZnxRshTmpBytes
         + VecZnxLshTmpBytes
         + VecZnxLshAssign<BE>
-        + VecZnxLsh<BE>,
+        + VecZnxLsh<BE>
+        + VecZnxZero,
 {
     fn glwe_shift_tmp_bytes(&self) -> usize {
         let lvl_0: usize = self.vec_znx_rsh_tmp_bytes().max(self.vec_znx_lsh_tmp_bytes());
@@ -1159,8 +1161,13 @@ where
         assert!(res.rank() >= a.rank());
 
         let base2k: usize = res.base2k().into();
-        for i in 0..res.rank().as_usize() + 1 {
+        let a_cols: usize = a.rank().as_usize() + 1;
+        for i in 0..a_cols {
             self.vec_znx_lsh(base2k, k, res.data_mut(), i, a.data(), i, scratch);
+        }
+        // columns that `a` does not have are zero (a lower-rank operand, e.g. a plaintext)
+        for i in a_cols..res.rank().as_usize() + 1 {
+            self.vec_znx_zero(res.data_mut(), i);
         }
     }
 
@@ -1185,7 +1192,7 @@ where
         assert!(res.rank() >= a.rank());
 
         let base2k: usize = res.base2k().into();
-        for i in 0..res.rank().as_usize() + 1 {
+        for i in 0..a.rank().as_usize() + 1 {
             self.vec_znx_lsh_add_into(base2k, k, res.data_mut(), i, a.data(), i, scratch);
         }
     }
@@ -1211,7 +1218,7 @@ where
         assert!(res.rank() >= a.rank());
 
         let base2k: usize = res.base2k().into();
-        for i in 0..res.rank().as_usize() + 1 {
+        for i in 0..a.rank().as_usize() + 1 {
             self.vec_znx_lsh_sub(base2k, k, res.data_mut(), i, a.data(), i, scratch);
         }
     }
